@@ -6,6 +6,21 @@ ROOT = "/verif"
 
 # id -> (engine, category, technique, level text, level note, design ref)
 CHECKS = {
+    "C14": ("enum", "model_checking",
+            "bounded-exhaustive enumeration of abstract song listings (every ordered selection of <=3/4 attribute/tag lines per song; all listings of <=3/4 entries over 10 entry kinds) encoded, parsed by the real parser and decoded by every song-listing command, compared with the abstract listing",
+            "One-song listings with every ordered selection of <=3/4 of 13 line kinds (both orders of Time/duration, two Range forms, repeated tags, unknown tags) and all listings of 0..3/4 entries over 6 song shapes plus directory / playlist entries with and without their own Last-Modified, decoded by playlistinfo, playlistinfo RANGE, currentsong, find, listplaylistinfo, listallinfo: one song per file entry in order with exactly the listed URL, duration (duration wins over Time), position/id/priority/range, format, last-modified and per-tag value lists.",
+            "Trusted: the abstract listing model and its encoder; empty URLs (never sent by MPD) are outside the domain.",
+            "DESIGN.md section 4 C14"),
+    "C15": ("enum", "model_checking",
+            "bounded-exhaustive enumeration of every constructor/builder path of every predefined command x boundary parameter values; the written line is split by the tokenizer port and interpreted semantically against a table written from the protocol reference",
+            "1959 cases over 66 command words: integers {0,1,2,MAX-1,MAX}, every pair of range bounds {unbounded, included, excluded} x {0,1,5,MAX-1,MAX} incl. empty and inverted ranges (compared as position sets, saturation at MAX accepted), 9 durations around the millisecond rounding points (within 0.5 ms; crossfade floored), all enum variants, strings with blanks, volumes 0..255 (clamped into 0..100): command word, argument count, positions and meaning must match the table.",
+            "Trusted: the expectation table (my reading of the MPD protocol reference) and mpdref::tokenizer.",
+            "DESIGN.md section 4 C15"),
+    "C16": ("enum", "model_checking",
+            "bounded-exhaustive enumeration of abstract replies per kind (status: all 2048 optional-field subsets, orders, boundary and enum values, out-of-domain spellings; stats, count, grouped count, list, grouped list, listplaylists, stickers, channels, messages, tagtypes, update, replay gain) decoded by the real commands and compared field by field",
+            "Every abstract reply is written with the protocol's field names (updating_db, legacy time: elapsed:total), parsed by the real parser and decoded; each decoded field must equal the value sent, Option fields must be Some iff sent, out-of-domain values must give Err, never another value.",
+            "Trusted: the abstract reply models written from MPD's handle_status / protocol reference; non-Option struct fields default when omitted.",
+            "DESIGN.md section 4 C16"),
     "C12": ("enum", "model_checking",
             "bounded-exhaustive enumeration of server replies per typed decoder (raw field lists over key x boundary-value pools; valid base reply with all single edits and pairs of edits; every frame count for typed lists) pushed through the real parser and converted under catch_unwind, accessors driven; two builds (default, chrono)",
             "For each of 28 typed decoders and for Vec/tuple command lists: every field list of length <=2 over the decoder's keys (+unrelated/tag/case-variant keys) x 30 boundary spellings, a valid base reply with every single edit and pairs of edits, every frame count 0..N+1, and field names outside the tag alphabet through the parser; conversion and every public accessor/iterator of the result must yield a value or a TypedResponseError, never a panic; run with default features and with chrono.",
